@@ -11,6 +11,27 @@ from common import rng
 PID = 'C08'
 
 # ---- programs that mutate every piece of per-context state they can reach -------------------------------------------
+MODLOOP = '''for name in ["sys", "os", "math", "time", "string", "builtins", "binascii", "marshal", "glob", "tempfile", "array", "ctxmod"]:
+    try:
+        m = __import__(name)
+    except ImportError:
+        continue
+    for k in sorted(dir(m)):
+        try:
+            v = getattr(m, k)
+        except Exception:
+            continue
+'''
+EXCPROBE = '''import math
+def probe(f):
+    try:
+        f()
+    except Exception as e:
+        return e
+    return None
+FS = [lambda: 1 // 0, lambda: 1.0 / 0, lambda: 1 % 0, lambda: 1 << -1, lambda: [][0], lambda: {}["k"], lambda: int("x"), lambda: None.x, lambda: undefined_name,
+      lambda: math.sqrt(-1), lambda: math.exp(100000), lambda: 1 + "a", lambda: next(iter([])), lambda: float("x"), lambda: (1j) / 0, lambda: divmod(1.5, 0), lambda: 2 ** 100000 * 1.0]
+'''
 POLLUTERS = {
     'globals': 'x = 1\nleak_marker = "P"\ndef f(): return 1\n',
     'sys.path': 'import sys\nsys.path.append("/polluted")\nsys.path[0:0] = ["/p0"]\n',
@@ -34,9 +55,43 @@ POLLUTERS = {
     'print.rebind': 'import builtins\n_p = builtins.print\ndef noisy(*a, **k):\n    _p("NOISY", *a)\nbuiltins.print = noisy\n',
     'import.hook': 'import builtins\ntry:\n    builtins.__import__ = None\nexcept Exception:\n    pass\n',
     'none.quiet': 'pass\n',
+    'os.environ': 'import os\nos.environ["VERIF_POLLUTED"] = "1"\n',
+    # every dict / list found among the globals of every importable Go module gets an extra entry
+    'mod.containers': MODLOOP + '''        if isinstance(v, dict):
+            try:
+                v["__polluted__"] = "1"
+            except Exception:
+                pass
+        elif isinstance(v, list):
+            v.append("__polluted__")
+''',
+    # exceptions raised by the runtime itself (not by a raise statement) get a __cause__ attached by a handler
+    'exc.cause': EXCPROBE + '''for f in FS:
+    e = probe(f)
+    if e is not None:
+        try:
+            raise e from KeyError("POLLUTED")
+        except Exception:
+            pass
+''',
 }
 
 OBSERVERS = {
+    'os.environ': 'import os\nprint("VERIF_POLLUTED" in os.environ)\n',
+    'mod.containers': 'n = 0\n' + MODLOOP + '''        if isinstance(v, dict) and "__polluted__" in v:
+            n += 1
+            print(name, k)
+        elif isinstance(v, list) and "__polluted__" in v:
+            n += 1
+            print(name, k)
+print("polluted containers", n)
+''',
+    'exc.fresh': EXCPROBE + '''for i, f in enumerate(FS):
+    e = probe(f)
+    if e is not None and e.__cause__ is not None:
+        print(i, "carries a cause")
+print("checked", len(FS))
+''',
     'globals': 'try:\n    print(leak_marker)\nexcept NameError:\n    print("clean")\ntry:\n    print(x)\nexcept NameError:\n    print("clean")\n',
     'sys.path': 'import sys\nprint(len(sys.path))\nfor p in sys.path:\n    print(p)\n',
     'sys.argv': 'import sys\nprint(len(sys.argv))\nfor p in sys.argv:\n    print(p)\n',
